@@ -1221,6 +1221,16 @@ func readerGuarantee(reader *ssa.Function, cb *ssa.Parameter, pidx int, handover
 					continue
 				}
 				cmp, ok := ifi.Cond.(*ssa.BinOp)
+				if ok && cmp.Op == token.NEQ {
+					// the test was made by a helper that reports too short a list as an error
+					if m, ok := checkerFloor(reader, cmp, lst, handover); ok {
+						found = true
+						if best < 0 || m < best {
+							best = m
+						}
+					}
+					continue
+				}
 				if !ok || cmp.Op != token.LSS || !sameLen(cmp.X, lst) {
 					continue
 				}
@@ -1244,6 +1254,103 @@ func readerGuarantee(reader *ssa.Function, cb *ssa.Parameter, pidx int, handover
 	return best, true
 }
 
+// checkerFloor: cond is "err != nil" for the error a helper returned, the helper was handed
+// len(lst) as its parameter n and returns an error on every path on which n < m holds, where m
+// is a parameter of the helper or a field of a struct it is handed; the result is the value
+// of m for the constants of the hand-over.
+func checkerFloor(reader *ssa.Function, cond *ssa.BinOp, lst ssa.Value, handover *ssa.Call) (int64, bool) {
+	var errV ssa.Value
+	if k, ok := cond.Y.(*ssa.Const); ok && k.IsNil() {
+		errV = cond.X
+	} else if k, ok := cond.X.(*ssa.Const); ok && k.IsNil() {
+		errV = cond.Y
+	}
+	call, ok := errV.(*ssa.Call)
+	if !ok || !isErrorType(call.Type()) {
+		return 0, false
+	}
+	helper := call.Call.StaticCallee()
+	if helper == nil || len(helper.Blocks) == 0 || call.Call.IsInvoke() {
+		return 0, false
+	}
+	best := int64(-1)
+	for i, a := range call.Call.Args {
+		if !sameLen(a, lst) || i >= len(helper.Params) {
+			continue
+		}
+		n := helper.Params[i]
+		for _, hb := range helper.Blocks {
+			ifi, ok := hb.Instrs[len(hb.Instrs)-1].(*ssa.If)
+			if !ok {
+				continue
+			}
+			cmp, ok := ifi.Cond.(*ssa.BinOp)
+			if !ok || cmp.Op != token.LSS || cmp.X != ssa.Value(n) || !hb.Dominates(hb.Succs[0]) {
+				continue
+			}
+			// the test is made on every path (its block dominates every return), and the short side
+			// ends in an error
+			onAll := true
+			for _, rb := range helper.Blocks {
+				if _, isRet := rb.Instrs[len(rb.Instrs)-1].(*ssa.Return); isRet && !hb.Dominates(rb) {
+					onAll = false
+				}
+			}
+			if !onAll || !leadsToErrorReturn(hb.Succs[0], 0) {
+				continue
+			}
+			// the minimum: a parameter of the helper, or a field of a struct parameter
+			var mArg ssa.Value
+			switch y := cmp.Y.(type) {
+			case *ssa.Parameter:
+				for j, hp := range helper.Params {
+					if hp == y && j < len(call.Call.Args) {
+						mArg = call.Call.Args[j]
+					}
+				}
+			case *ssa.Field:
+				if hp, ok := y.X.(*ssa.Parameter); ok {
+					for j, q := range helper.Params {
+						if q == hp && j < len(call.Call.Args) {
+							mArg = structFieldValue(call.Call.Args[j], y.Field)
+						}
+					}
+				}
+			case *ssa.UnOp:
+				if fa, ok := y.X.(*ssa.FieldAddr); ok && y.Op == token.MUL {
+					var hp *ssa.Parameter
+					switch fx := fa.X.(type) {
+					case *ssa.Parameter:
+						hp = fx
+					case *ssa.Alloc:
+						for _, q := range helper.Params {
+							if cellHoldsOnly(fx, q) {
+								hp = q
+							}
+						}
+					}
+					for j, q := range helper.Params {
+						if hp != nil && q == hp && j < len(call.Call.Args) {
+							mArg = structFieldValue(call.Call.Args[j], fa.Field)
+						}
+					}
+				}
+			}
+			if mArg == nil {
+				continue
+			}
+			m, ok := paramValueAt(reader, mArg, handover)
+			if !ok {
+				continue
+			}
+			if best < 0 || m < best {
+				best = m
+			}
+		}
+	}
+	return best, best >= 0
+}
+
 // paramValueAt: the value of v (an int parameter of reader, possibly merged with constants on
 // branches that test the parameter against a constant) for the constant the hand-over passes.
 func paramValueAt(reader *ssa.Function, v ssa.Value, handover *ssa.Call) (int64, bool) {
@@ -1263,6 +1370,20 @@ func paramValueAt(reader *ssa.Function, v ssa.Value, handover *ssa.Call) (int64,
 	case *ssa.Const:
 		if x.Value != nil && x.Value.Kind() == constant.Int {
 			return x.Int64(), true
+		}
+	case *ssa.Call:
+		if bi, ok := x.Call.Value.(*ssa.Builtin); ok && (bi.Name() == "max" || bi.Name() == "min") && len(x.Call.Args) > 0 {
+			var res int64
+			for i, a := range x.Call.Args {
+				m, ok := paramValueAt(reader, a, handover)
+				if !ok {
+					return 0, false
+				}
+				if i == 0 || (bi.Name() == "max" && m > res) || (bi.Name() == "min" && m < res) {
+					res = m
+				}
+			}
+			return res, true
 		}
 	case *ssa.Phi:
 		// edges taken for the passed constant: an edge that comes from the true side of
